@@ -33,6 +33,7 @@ def objectFields : List String :=
 structure Obj where
   row : Env
   st : State
+  allowNeg : Bool := false      -- `broker.allow_negative_balance`
 deriving Repr
 
 /-- what can happen to the object -/
@@ -53,7 +54,7 @@ def Obj.setStatus (o : Obj) (row : Env) : Obj := { o with row := { row with toke
 
 def Obj.apply (cx : NumCtx) (o : Obj) : Event → Answer × Obj
   | .setStatus row => (.none, o.setStatus row)
-  | .op p => let (r, s) := step cx o.row o.st p; (.value r, { o with st := s })
+  | .op p => let (r, s) := step cx o.row o.st p o.allowNeg; (.value r, { o with st := s })
   | .fee t u i => (.feeBps (GmxV1.feeBps cx o.row t u i), o)
 
 /-- the object after a history of events -/
@@ -76,6 +77,7 @@ structure Obj (α : Type) where
   shortKey : String
   row : Pool α
   st : State α
+  allowNeg : Bool := false      -- `broker.allow_negative_balance`
 
 inductive Event (α : Type)
   | setStatus (row : Pool α)
@@ -92,7 +94,7 @@ variable {α : Type} [Add α] [Sub α] [Mul α] [Div α] [Neg α] [LT α] [LE α
 
 def Obj.apply (ops : Ops α) (cx : NumCtx) (o : Obj α) : Event α → Answer α × Obj α
   | .setStatus row => (.none, { o with row := row })
-  | .deposit l s => let (r, st) := GmxV2.deposit ops cx o.cfg o.row o.longKey o.shortKey o.st l s; (.deposit r, { o with st := st })
+  | .deposit l s => let (r, st) := GmxV2.deposit ops cx o.cfg o.row o.longKey o.shortKey o.st l s o.allowNeg; (.deposit r, { o with st := st })
   | .withdraw a => let (r, st) := GmxV2.withdraw ops cx o.cfg o.row o.longKey o.shortKey o.st a; (.withdraw r, { o with st := st })
 
 def Obj.run (ops : Ops α) (cx : NumCtx) (o : Obj α) (evs : List (Event α)) : Obj α :=
